@@ -104,7 +104,7 @@ def roles_partition(chk):
             exp = 'source=%s,target=%s' % ('true' if ev(S) else 'false', 'true' if ev(T) else 'false')
             return {'role': 'roles:' + bad[0], 'kind': 'dbstate', 'real': exp, 'ref': '-', 'witness': {'line': to_dbline(m, ids[0], 'roles'), 'model': m},
                     'what': 'is_source/is_target: %s (%s)' % (bad[0], exp),
-                    'expect_rows': (lambda out, exp=exp: ('VERDICT=' + exp) in out)}
+                    'expect': {'type': 'contains', 'text': 'VERDICT=' + exp}}
         return None
 
     chk.explore('is_source / is_target partition', run, judge)
@@ -147,7 +147,7 @@ def set_failed_facts(chk):
             m = model_of(eng, w, R, ids)
             return {'role': 'set_failed:' + bad.split(' ')[0], 'kind': 'dbstate', 'real': '-', 'ref': '-',
                     'witness': {'line': to_dbline(m, ids[0], 'set_failed'), 'model': m}, 'what': 'File::set_failed: ' + bad,
-                    'expect_rows': lambda out: True}
+                    'expect': {'type': 'always'}}
         return None
 
     chk.explore('set_failed marks the row failed in this run', run, judge)
@@ -277,8 +277,20 @@ def two_phase_edges(chk):
                 if k not in now:
                     bad = 'old edge %r vanished although the job never finished' % (k,)
         if bad:
-            return {'role': 'two-phase:' + ('finished' if st['finish'] else 'unfinished'), 'kind': 'none', 'what': 'two-phase edge replacement: ' + bad,
-                    'witness': {'old': sorted(st['old']), 'declared': st['D']}}
+            R = st['R']
+            m = model_of(eng, w, R, ids)
+            # native replay: the same prior edges, the same declarations, on a real database
+            m['deps'] = [[t, s_, bytes(d['mode']).decode(), 0] for (t, s_), d in st['old'].items()]
+            decl = ','.join('%s-%s' % (bytes(w.files[s_]['name']).hex(), mm.decode()) for s_, mm in st['D'])
+            line = to_dbline(m, T, 'twophase:%d:%s' % (1 if st['finish'] else 0, decl))
+            want = sorted('%d>%d:%s:0' % (T, s_, mm.decode()) for s_, mm in st['D'])
+            old_keys = sorted('%d>%d' % k for k in st['old'])
+            fin = st['finish']
+
+            return {'role': 'two-phase:' + ('finished' if st['finish'] else 'unfinished'), 'kind': 'dbstate', 'real': '-', 'ref': '-',
+                    'what': 'two-phase edge replacement: ' + bad,
+                    'expect': {'type': 'twophase', 'want': want, 'old_keys': old_keys, 'finish': bool(fin), 'T': T},
+                    'witness': {'line': line, 'old': sorted(st['old']), 'declared': st['D']}}
         return None
 
     chk.explore('two-phase replacement of the dependency list', run, judge)
